@@ -178,7 +178,7 @@ def rule_r4(ctx: Ctx) -> None:
         raise AnalysisError("DSDLDefinition.composite_type: %s" % ex)
     ctx.check(before is None and after is o["final"], "_dsdl_definition.DSDLDefinition.composite_type", "None before the first read, the built type afterwards", "the accessor exposes the cache", rd.module.relpath, nontrivial=False)
     # the namespace reader works on one object per file path: a second object for the same file is replaced by the first
-    nsr = ctx.func("_namespace_reader._read_definitions")
+    nsr = ctx.func("_namespace_reader.read_definitions")
     w = R.World()
     D = R.ADef(w, "ns.D", 1, 0)
     A1 = R.ADef(w, "ns.A", 1, 0, deps=[D])
